@@ -10,7 +10,7 @@ from .verdict import Check
 
 PROP_FILE = "Properties/C12.v"
 THEOREMS = ["C12_symbolic_indentation", "C12_text_independent_of_unit", "C12_layout_line_is_multiple", "C12_sym_of_sound",
-            "C12_wide_enough", "C12_real_renderer_scales"]
+            "C12_wide_enough", "C12_real_renderer_scales", "C12_converter_parametric_in_unit", "C12_indentation_scales"]
 UNITS = [1, 2, 3, 4, 8]
 WIDE = 1000000
 
